@@ -5,15 +5,17 @@
 (* The interior grid has M[1] x M[2] x M[3] points (x, y, z).  A             *)
 (* decomposition is nested rectilinear: z-slabs; every slab has its own      *)
 (* y-cuts; every (slab, strip) has its own x-cuts.  A chunk owns a box of    *)
-(* interior points and is stored with `ghost` extra points on every side     *)
-(* (neighbour's points or the outer boundary zone), as array [z][y][x], with *)
+(* interior points and is stored with ghost[a] extra points on either side of *)
+(* axis a (neighbour's points or the outer boundary zone; the attribute      *)
+(* cctk_nghostzones lists the widths in the order x, y, z), as array         *)
+(* [z][y][x], with                                                           *)
 (* the attribute iorigin = position of its first stored point.  The pieces   *)
 (* are numbered (c = ...) by one of several enumeration orders.              *)
 (* Reference semantics: Join(pieces) = the interior grid, indexed (x, y, z). *)
 EXTENDS Integers, Sequences, FiniteSets, TLC, Json
 
 CONSTANTS M,           \* <<Mx, My, Mz>>
-          Ghosts,      \* set of ghost widths
+          Ghosts,      \* set of ghost widths <<gx, gy, gz>> (Carpet allows a different width on every axis)
           CutOptions,  \* CutOptions[n] = set of allowed cut sets for an axis of n points (each a subset of 1..n-1)
           Family,      \* "tensor" | "slab" | "nested"
           Orders,      \* set of enumeration orders: "xfast", "zfast", "reversed", "rotated"
